@@ -1094,6 +1094,19 @@ class Context:
                         return layout("[]", items, indent)
                     # For objects, skip undefined values
                     members = []
+                    if hasattr(v, "get_index") and hasattr(v, "_element_size"):
+                        # A typed array is an object whose keys are its indices
+                        for i in range(v.length):
+                            if allowed_keys is not None and str(i) not in allowed_keys:
+                                continue
+                            text = serialize(
+                                prepare(v, str(i), v.get_index(i)), indent + gap
+                            )
+                            if text is not None:
+                                members.append(
+                                    quote(str(i)) + (": " if gap else ":") + text
+                                )
+                        return layout("{}", members, indent)
                     keys = list(v.keys()) if allowed_keys is None else [
                         k for k in allowed_keys if v.has(k) or k in v._getters
                     ]
